@@ -129,6 +129,7 @@ pub fn base(tier: Tier) -> Profile {
         p_rebuild: 0.1,
         p_commit_before_build: 0.1,
         after_round: AfterRound { keep: 4, commit: 4, abort: 1 },
+        p_swap_round: 0.0,
         round_kinds: Vec::new(),
         round_plans: Vec::new(),
         p_prepare: 0.0,
@@ -178,6 +179,7 @@ pub fn profile(name: &str, tier: Tier) -> Option<Profile> {
                 vec![(3, Const(1)), (2, Range(2, 16))]
             };
             p.probes = 10;
+            p.p_swap_round = 0.1;
         }
         // unlimited budget = exact neighbours
         "c02" => {
@@ -227,6 +229,8 @@ pub fn profile(name: &str, tier: Tier) -> Option<Profile> {
             p.queries = Range(0, 1);
             p.later_ops.overwrite = 30;
             p.probes = 35;
+            // the id set a reader reports after a build that changed the items but not their number
+            p.p_swap_round = 0.3;
             p.after_round =
                 if q { AfterRound { keep: 3, commit: 4, abort: 1 } } else { AfterRound { keep: 1, commit: 6, abort: 2 } };
         }
@@ -461,6 +465,8 @@ pub fn profile(name: &str, tier: Tier) -> Option<Profile> {
             p.n_indexes = Mix(vec![(2, Const(1)), (2, Const(2)), (1, Const(3))]);
             p.after_round = AfterRound { keep: 1, commit: 6, abort: 1 };
             p.p_skip_build = 0.2;
+            // word and lane boundaries of the vector codecs (quantised words of 64 components)
+            p.dims = Mix(vec![(5, Range(1, 8)), (1, Range(9, 40)), (2, OneOf(vec![16, 63, 64, 65, 128]))]);
         }
         // the database the `upgrade` scenario downgrades: cosine only, 1-3 indexes, small
         // buckets (single-item children on both sides), some indexes left with pending updates
